@@ -591,7 +591,14 @@ namespace
                     case V_CTOR_ILIST:
                     {
 #ifndef C02_TWIN
-                        v[u].reset(new Vec({E(val), E(val + 1), E(val + 2)}));
+                        if (val % 2) v[u].reset(new Vec({E(val), E(val + 1), E(val + 2)}));
+                        else
+                        {
+                            // the list handed over as a named object (a wrapper forwarding its own constructor argument): an lvalue
+                            std::initializer_list<E> named = {E(val), E(val + 1), E(val + 2)};
+                            v[u].reset(new Vec(named));
+                            probe("constructed_from_a_named_initializer_list");
+                        }
                         m[u] = {val, val + 1, val + 2};
 #endif
                         break;
